@@ -1,0 +1,81 @@
+//go:build verif
+// +build verif
+
+package cache
+
+import (
+	"fmt"
+	"os"
+	"strconv"
+	"strings"
+	"syscall"
+)
+
+// Verification hooks (build tag `verif` only): named points of the cache
+// write protocol at which a monitor can observe progress and inject a crash
+// or a torn header write.
+//
+// In-process use: set VerifPlan; a "kill" action panics with VerifCrash (the
+// harness recovers it and makes no further call on the File, which is what a
+// process death leaves behind: bytes already handed to the OS stay, bytes
+// buffered in the flate writer are lost).
+// Child-process use: GTS_VERIF_FAULT=<point>:<hit>:<action> makes the process
+// SIGKILL itself at that point. Actions: kill | tear:<K> (write only the
+// first K bytes of the final header, then kill; only at point pre-header).
+
+// VerifCrash is the sentinel panic value of an injected in-process crash.
+type VerifCrash struct {
+	Point string
+	Hit   int
+}
+
+// VerifPlan decides the action at (point, hit); nil means consult the
+// environment.
+var VerifPlan func(point string, hit int) string
+
+// VerifHits counts how often each point was reached since VerifReset.
+var VerifHits = map[string]int{}
+
+// VerifReset clears the hit counters.
+func VerifReset() { VerifHits = map[string]int{} }
+
+func verifPoint(name string, f *os.File, hd *Header) {
+	VerifHits[name]++
+	hit := VerifHits[name]
+	action := ""
+	inproc := VerifPlan != nil
+	if inproc {
+		action = VerifPlan(name, hit)
+	} else if env := os.Getenv("GTS_VERIF_FAULT"); env != "" {
+		parts := strings.SplitN(env, ":", 3)
+		if len(parts) == 3 && parts[0] == name {
+			if n, err := strconv.Atoi(parts[1]); err == nil && n == hit {
+				action = parts[2]
+			}
+		}
+	}
+	if path := os.Getenv("GTS_VERIF_TRACE"); path != "" && !inproc {
+		if tf, err := os.OpenFile(path, os.O_APPEND|os.O_CREATE|os.O_WRONLY, 0644); err == nil {
+			fmt.Fprintf(tf, "{\"pid\":%d,\"ev\":\"cache-point\",\"point\":%q,\"hit\":%d,\"action\":%q}\n", os.Getpid(), name, hit, action)
+			tf.Close()
+		}
+	}
+	if action == "" {
+		return
+	}
+	if strings.HasPrefix(action, "tear:") && f != nil && hd != nil {
+		k, _ := strconv.Atoi(strings.TrimPrefix(action, "tear:"))
+		p := append(append(append([]byte{}, hd.RootSum...), hd.DataSum...), hd.BodySum...)
+		if k > len(p) {
+			k = len(p)
+		}
+		if k > 0 {
+			f.Write(p[:k])
+		}
+	}
+	if inproc {
+		panic(VerifCrash{name, hit})
+	}
+	syscall.Kill(os.Getpid(), syscall.SIGKILL)
+	select {}
+}
